@@ -4,6 +4,7 @@ import asyncio
 import signal
 import sys
 import threading
+import time
 from concurrent.futures import ThreadPoolExecutor, wait
 from functools import partial, update_wrapper
 from logging import Logger, LoggerAdapter
@@ -238,13 +239,20 @@ def timeout_wrapper(wrapped_func: Callable[..., Any]) -> Callable[..., Any]:
             )
 
             old = signal.signal(signal.SIGALRM, callback)
-            signal.setitimer(signal.ITIMER_REAL, timeout)
+            start = time.monotonic()
+            old_delay, old_interval = signal.setitimer(signal.ITIMER_REAL, timeout)
             try:
                 return wrapped_func(*args, **kwargs)
             finally:
                 if timeout:
                     signal.setitimer(signal.ITIMER_REAL, 0)
                     signal.signal(signal.SIGALRM, old)
+                    if old_delay:
+                        # SIGALRM was already in use (an enclosing timeout or the user's own timer);
+                        # hand it back with whatever is left of it -- if it fell due while we were
+                        # borrowing the signal let it fire right away rather than losing it
+                        remaining = old_delay - (time.monotonic() - start)
+                        signal.setitimer(signal.ITIMER_REAL, max(remaining, 1e-6), old_interval)
 
     # ensures that the wrapped function is updated w/ the original functions docs/etc. --
     # necessary for introspection for the auto gen docs to work!
